@@ -119,3 +119,11 @@ def english_type(report: FullReport, translated: str) -> str:
         if report._(word).upper() == translated:
             return word.upper()
     return translated
+
+
+def generator_crash(stderr: str, generator_file: str) -> str:
+    """Last frame line + error of a traceback that passes through the given report generator file ('' if none)."""
+    if "Traceback (most recent call last)" not in stderr or generator_file not in stderr:
+        return ""
+    lines = [line for line in stderr.strip().splitlines() if line.strip()]
+    return lines[-1][:200]
